@@ -71,7 +71,7 @@ impl RoundTrip {
         let mut payloads = vec![gen_large_payload(rng, words)];
         if rng.bool() { payloads.push(Payload::plain(Leaf::U64(0x5E17_1E1A_0000_0001))); }
         let coarse = |rng: &mut Rng| match rng.below(5) { 0 => Chunk::Unbounded, 1 => Chunk::Max(1 << 16), 2 => Chunk::Max(4096), 3 => Chunk::Align(1 << 16), _ => Chunk::Seq(vec![100_000, 4096, 1 << 20, 65_537, 13]) };
-        RoundTrip { payloads, w: WritePlan { chunk: coarse(rng), eintr: vec![], fault: None }, r: ReadPlan { chunk: coarse(rng), eintr: if rng.bool() { vec![3, 17] } else { vec![] }, fault: None }, split: false, via_fs: None, via_fifo: false }
+        RoundTrip { payloads, w: WritePlan { chunk: coarse(rng), eintr: vec![], fault: None, vectored: rng.bool() }, r: ReadPlan { chunk: coarse(rng), eintr: if rng.bool() { vec![3, 17] } else { vec![] }, fault: None }, split: false, via_fs: None, via_fifo: false }
     }
 
     pub fn run(&self, prop: &str) -> Outcome {
@@ -320,6 +320,9 @@ pub struct StreamFault {
     pub eintr: Vec<u64>,
     pub kind: Kind,
     pub points: Points,
+    /// The failing sink implements `write_vectored` natively.
+    #[serde(default)]
+    pub vectored: bool,
 }
 
 impl StreamFault {
@@ -337,7 +340,7 @@ impl StreamFault {
             FaultClause::LoadErr | FaultClause::SkipErr => *rng.pick(&READ_KINDS),
             _ => *rng.pick(&WRITE_KINDS),
         };
-        StreamFault { payload, clause, chunk, eintr, kind, points: Points::All }
+        StreamFault { payload, clause, chunk, eintr, kind, points: Points::All, vectored: rng.chance(1, 2) }
     }
 
     fn one(&self, prop: &str, val: &dyn DynVal, bytes: &[u8], k: usize, stats: &mut Stats) -> Option<Violation> {
@@ -378,7 +381,7 @@ impl StreamFault {
             },
             FaultClause::SerErr | FaultClause::SerZero => {
                 let fault = if self.clause == FaultClause::SerErr { WriteFault::Err(k, self.kind) } else { WriteFault::Zero(k) };
-                let mut w = SimWriter::new(WritePlan { chunk: self.chunk.clone(), eintr: self.eintr.clone(), fault: Some(fault) }, bytes.len());
+                let mut w = SimWriter::new(WritePlan { chunk: self.chunk.clone(), eintr: self.eintr.clone(), fault: Some(fault), vectored: self.vectored }, bytes.len());
                 let res = catch(|| val.serialize(&mut w));
                 stats.io("W", &w.stats);
                 stats.sigs.insert(w.stats.sig ^ 0x99);
@@ -450,7 +453,7 @@ impl StreamFault {
         let clause = if payload.opt > 0 && rng.bool() { *rng.pick(&[FaultClause::SkipTrunc, FaultClause::SkipErr]) } else { *rng.pick(&[FaultClause::LoadTrunc, FaultClause::LoadTrunc, FaultClause::LoadErr, FaultClause::SerErr, FaultClause::SerZero]) };
         let chunk = match rng.below(4) { 0 => Chunk::Unbounded, 1 => Chunk::Max(1 << 16), 2 => Chunk::Align(1 << 16), _ => Chunk::Seq(vec![100_000, 4096, 1 << 20, 65_537]) };
         let kind = match clause { FaultClause::LoadErr | FaultClause::SkipErr => *rng.pick(&READ_KINDS), _ => *rng.pick(&WRITE_KINDS) };
-        StreamFault { payload, clause, chunk, eintr: Vec::new(), kind, points: Points::Sample }
+        StreamFault { payload, clause, chunk, eintr: Vec::new(), kind, points: Points::Sample, vectored: rng.bool() }
     }
 
     pub fn simpler(&self) -> Vec<StreamFault> {
@@ -630,6 +633,29 @@ impl Supports {
                 if model & 3 == 3 { cur.enable_pred_succ(); }
                 if cur != before { return Err(v("enable-not-idempotent", &step, format!("re-enabling supports {:03b} changed the value", model))); }
             }
+            // A query whose support structure is absent is the caller's error and normally panics. If it answers
+            // instead, the answer has to be the one the fully enabled original gives - enabling must not change it.
+            {
+                let probe_at = |n: usize| if n == 0 { 0 } else { n / 2 };
+                if model & 2 == 0 && cur.count_ones() > 0 {
+                    let r = probe_at(cur.count_ones());
+                    if let Ok(ans) = catch(|| cur.select(r)) { if ans != full.select(r) { return Err(v("answers-changed", "select-without-support", format!("select({}) answers {:?} without its support structure and {:?} once it is enabled", r, ans, full.select(r)))); } }
+                    if let Ok(ans) = catch(|| cur.select_iter(r).next()) { if ans != full.select_iter(r).next() { return Err(v("answers-changed", "select-without-support", format!("select_iter({}) yields {:?} without its support structure and {:?} once it is enabled", r, ans, full.select_iter(r).next()))); } }
+                }
+                if model & 4 == 0 && cur.count_zeros() > 0 {
+                    let r = probe_at(cur.count_zeros());
+                    if let Ok(ans) = catch(|| cur.select_zero(r)) { if ans != full.select_zero(r) { return Err(v("answers-changed", "select-zero-without-support", format!("select_zero({}) answers {:?} without its support structure and {:?} once it is enabled", r, ans, full.select_zero(r)))); } }
+                }
+                if model & 1 == 0 && cur.len() > 1 {
+                    let i = cur.len() / 2;
+                    if let Ok(ans) = catch(|| cur.rank(i)) { if ans != full.rank(i) { return Err(v("answers-changed", "rank-without-support", format!("rank({}) answers {} without its support structure and {} once it is enabled", i, ans, full.rank(i)))); } }
+                }
+                if model & 3 != 3 && cur.len() > 1 && cur.count_ones() > 0 {
+                    let i = cur.len() / 2;
+                    if let Ok(ans) = catch(|| cur.predecessor(i).next()) { if ans != full.predecessor(i).next() { return Err(v("answers-changed", "predsucc-without-support", format!("predecessor({}) yields {:?} without its support structures and {:?} once they are enabled", i, ans, full.predecessor(i).next()))); } }
+                    if let Ok(ans) = catch(|| cur.successor(i).next()) { if ans != full.successor(i).next() { return Err(v("answers-changed", "predsucc-without-support", format!("successor({}) yields {:?} without its support structures and {:?} once they are enabled", i, ans, full.successor(i).next()))); } }
+                }
+            }
             // Enable the rest in a scenario-dependent order; must equal the fully enabled original.
             let order: [u8; 3] = match self.c.salt % 6 { 0 => [0, 1, 2], 1 => [0, 2, 1], 2 => [1, 0, 2], 3 => [1, 2, 0], 4 => [2, 0, 1], _ => [2, 1, 0] };
             for o in order { match o { 0 => cur.enable_rank(), 1 => cur.enable_select(), _ => cur.enable_select_zero() } }
@@ -742,6 +768,10 @@ pub struct Foreign {
     /// written with different support subsets), and `keep` is ignored.
     #[serde(default)]
     pub keep_seed: Option<u64>,
+    /// Sparse vectors only: the foreign writer encodes the set itself (high / low parts per the format document)
+    /// and chooses a low-part width that differs from the library's by this much (0 = take the library's bytes).
+    #[serde(default)]
+    pub alt_width: i8,
     pub r: ReadPlan,
 }
 
@@ -758,7 +788,9 @@ impl Foreign {
         p.opt = if rng.chance(1, 3) { 1 } else { 0 }; p.none_at = None;
         let keep = if rng.chance(2, 3) { 0 } else { rng.below(8) as u8 };
         let keep_seed = if rng.chance(1, 4) { Some(rng.next() & 0xFFFF) } else { None };
-        Foreign { payload: p, keep, keep_seed, r: ReadPlan::generate(rng, 32) }
+        let alt_width = if matches!(p.leaf, Leaf::Sparse { multiset: false, .. }) && rng.chance(1, 3) { *rng.pick(&[-1i8, 1, 1, 2]) } else { 0 };
+        if alt_width != 0 { p.opt = 0; }
+        Foreign { payload: p, keep, keep_seed, alt_width, r: ReadPlan::generate(rng, 32) }
     }
 
     pub fn run(&self, prop: &str) -> Outcome {
@@ -768,6 +800,41 @@ impl Foreign {
         let val = match catch(|| self.payload.build()) { Ok(x) => x, Err(p) => return out.fail(v("harness", "build", p)) };
         let tn = val.type_name();
         let bytes = match catch(|| val.serialize_vec()) { Ok(Ok(b)) => b, _ => return out.fail(v("harness", "serialize", "serialize failed".into())) };
+        // A foreign writer that encodes the set on its own, with its own (admissible) low-part width.
+        if self.alt_width != 0 {
+            if let Leaf::Sparse { c, stride, multiset: false } = &self.payload.leaf {
+                let (universe, pos) = crate::payload::sparse_positions(c, *stride, false);
+                if !pos.is_empty() && universe > 0 {
+                    let ideal = ((universe as f64 * 2.0_f64.ln()) / (pos.len() as f64)).log2().max(1.0).round() as i64;
+                    let w = (ideal + self.alt_width as i64).clamp(1, 63) as usize;
+                    let buckets = (universe >> w) + if universe & ((1usize << w) - 1) != 0 { 1 } else { 0 };
+                    if w as i64 != ideal && pos.len() + buckets <= (1 << 26) {
+                        use simple_sds::ops::Push;
+                        use simple_sds::raw_vector::AccessRaw;
+                        let mut high = RawVector::with_len(pos.len() + buckets, false);
+                        let mut low = simple_sds::int_vector::IntVector::new(w).unwrap();
+                        for (i, p) in pos.iter().enumerate() { high.set_bit((p >> w) + i, true); low.push((*p & ((1usize << w) - 1)) as u64); }
+                        let mut alt: Vec<u8> = Vec::new();
+                        let _ = SdsSerialize::serialize(&universe, &mut alt);
+                        let _ = BitVector::from(high).serialize(&mut alt);
+                        let _ = low.serialize(&mut alt);
+                        let mut r = SimReader::new(&alt, self.r.clone());
+                        let loaded = match catch(|| val.load(&mut r)) {
+                            Ok(Ok(l)) => l,
+                            Ok(Err(e)) => return out.fail(v("foreign-load-error", tn, format!("{}: a file that encodes the same set with low-part width {} (the library would choose {}) and no support structures does not load: {}", self.payload.describe(), w, ideal, e))),
+                            Err(p) => return out.fail(v("panic", tn, format!("loading a sparse vector written with low-part width {} panicked: {}", w, p))),
+                        };
+                        if r.position() != alt.len() { return out.fail(v("load-position", tn, format!("reader at {} of {} after loading the foreign sparse vector", r.position(), alt.len()))); }
+                        match catch(|| (val.probe(), loaded.probe())) {
+                            Ok((a, b)) => if a != b { return out.fail(v("foreign-answers", tn, format!("{}: the same set written with low-part width {} answers differently", self.payload.describe(), w))); },
+                            Err(p) => return out.fail(v("foreign-query-panic", tn, format!("{}: querying the sparse vector written with low-part width {} panicked: {}", self.payload.describe(), w, p))),
+                        }
+                        out.stats.io("R", &r.stats);
+                        out.stats.probe("foreign sparse vector with a different low-part width");
+                    }
+                }
+            }
+        }
         let mut stripped: Vec<u8> = Vec::new();
         let wrapped = self.payload.opt == 1;
         let mut pos = if wrapped { 8usize } else { 0 };
@@ -865,6 +932,7 @@ impl Foreign {
         for p in self.payload.simpler() { if p.opt <= 1 && p.none_at.is_none() { let mut s = self.clone(); s.payload = p; out.push(s); } }
         if self.keep != 0 { let mut s = self.clone(); s.keep = 0; out.push(s); }
         if self.keep_seed.is_some() { let mut s = self.clone(); s.keep_seed = None; out.push(s); }
+        if self.alt_width != 0 { let mut s = self.clone(); s.alt_width = 0; out.push(s); }
         if self.payload.opt == 1 { let mut s = self.clone(); s.payload.opt = 0; out.push(s); }
         if !self.r.chunk.is_unbounded() || !self.r.eintr.is_empty() { let mut s = self.clone(); s.r = ReadPlan::plain(); out.push(s); }
         out
